@@ -5,7 +5,7 @@
    wf_X (Spec/SendRef.v) says: the independent reference decoder decodes the frame as a complete,
    length-consistent packet of the intended protocol with the requested addresses and fields,
    Ethernet source = host MAC, checksums verify, hop limit / multicast MAC rules hold. *)
-From PV Require Import Proofs.SendBase Model.Send Spec.SendKnown Proofs.Send.
+From PV Require Import Proofs.SendBase Model.Send Spec.SendRef Proofs.Send.
 Open Scope N_scope.
 
 (* ICMP4SendEchoRequest: all configurations, addresses, ids, sequence numbers and buffer contents *)
@@ -50,42 +50,21 @@ Theorem C07_ns_wellformed : forall c sm si dm di tg junk,
 Proof. exact ns_wf. Qed.
 Print Assumptions C07_ns_wellformed.
 
-(* Session.arpRequest (purge probe): refuted (finding arpreq-hlen-plen-in-ether-header) ... *)
-Theorem C07_arp_request_wellformed_refuted :
-  exists c ip junk fr, mac_ok (host_mac c) /\ ip4_ok (host_ip4 c) /\ ip4_ok ip /\ length junk = EthMaxSize /\
-    send_purge_arp c ip junk = Ok [fr] /\
-    wf_arp (host_mac c) eth_bcast 1 (host_mac c) (host_ip4 c) eth_bcast ip fr = false /\
-    known_arpreq_hdr (host_mac c) eth_bcast 1 (host_mac c) (host_ip4 c) eth_bcast ip fr = true.
-Proof. exact arp_request_refuted. Qed.
-Print Assumptions C07_arp_request_wellformed_refuted.
-
-(* ... every frame is well-formed once hlen/plen are moved from Ethernet bytes 4,5 to ARP bytes 4,5 ... *)
-Theorem C07_arp_request_wellformed_partial : forall c dst sm si tm ti junk,
+(* Session.arpRequest (purge probe), after fix 9359b10 (hlen/plen written to the ARP header) *)
+Theorem C07_arp_request_wellformed : forall c dst sm si tm ti junk,
   mac_ok (host_mac c) -> mac_ok dst -> mac_ok sm -> ip4_ok si -> mac_ok tm -> ip4_ok ti ->
   (42 <= length junk)%nat ->
   exists fr, send_arp_request c dst (sm, si) (tm, ti) junk = Ok [fr] /\
-    nth 4 fr 0 = 6 /\ nth 5 fr 0 = 4 /\
-    wf_arp (host_mac c) dst 1 sm si tm ti (repair_arpreq dst fr) = true.
-Proof. exact arp_request_partial. Qed.
-Print Assumptions C07_arp_request_wellformed_partial.
+    wf_arp (host_mac c) dst 1 sm si tm ti fr = true.
+Proof. exact arp_request_wf. Qed.
+Print Assumptions C07_arp_request_wellformed.
 
-(* ... hence well-formed outside the recorded class *)
-Theorem C07_arp_request_outside_known : forall c dst sm si tm ti junk fr,
-  mac_ok (host_mac c) -> mac_ok dst -> mac_ok sm -> ip4_ok si -> mac_ok tm -> ip4_ok ti ->
-  (42 <= length junk)%nat ->
-  send_arp_request c dst (sm, si) (tm, ti) junk = Ok [fr] ->
-  known_arpreq_hdr (host_mac c) dst 1 sm si tm ti fr = false ->
-  wf_arp (host_mac c) dst 1 sm si tm ti fr = true.
-Proof. exact arp_request_outside_known. Qed.
-Print Assumptions C07_arp_request_outside_known.
-
-Example C07_arp_request_outside_known_inhabited :
-  exists c dst sm si tm ti junk fr,
-    mac_ok (host_mac c) /\ mac_ok dst /\ (42 <= length junk)%nat /\
-    send_arp_request c dst (sm, si) (tm, ti) junk = Ok [fr] /\
-    known_arpreq_hdr (host_mac c) dst 1 sm si tm ti fr = false.
-Proof. exact arp_request_outside_known_inhabited. Qed.
-Print Assumptions C07_arp_request_outside_known_inhabited.
+Theorem C07_purge_arp_wellformed : forall c ip junk,
+  mac_ok (host_mac c) -> ip4_ok (host_ip4 c) -> ip4_ok ip -> (42 <= length junk)%nat ->
+  exists fr, send_purge_arp c ip junk = Ok [fr] /\
+    wf_arp (host_mac c) eth_bcast 1 (host_mac c) (host_ip4 c) eth_bcast ip fr = true.
+Proof. exact purge_arp_wf. Qed.
+Print Assumptions C07_purge_arp_wellformed.
 
 (* ================================================================ *)
 (* arp_spoofer (handlers/arp_spoofer/arp.go): RequestRaw / reply for every operation, destination, sender,
@@ -126,20 +105,18 @@ Theorem C07_arp_announce_wellformed : forall c dst ip junk,
 Proof. exact arp_announce_wf. Qed.
 Print Assumptions C07_arp_announce_wellformed.
 
-(* ICMP6SendRouterSolicitation: refuted (finding rs-without-icmp6-header-to-ff02-1) ... *)
-Theorem C07_rs_wellformed_refuted :
-  exists c junk fr, mac_ok (host_mac c) /\ ip6_ok (host_lla c) /\ length junk = EthMaxSize /\
-    send_rs c junk = Ok [fr] /\ wf_rs (host_mac c) (host_lla c) fr = false.
-Proof. exact rs_refuted. Qed.
-Print Assumptions C07_rs_wellformed_refuted.
-
-(* ... every RS frame lies in exactly that class (ICMPv6 type 0 to ff02::1 with the SLLA option as body) *)
-Theorem C07_rs_wellformed_partial : forall c junk,
+(* ICMP6SendRouterSolicitation, after fixes 6efe826 (ICMPv6 header) and 5d47cb2 (all-routers = ff02::2):
+   incl. hop limit 255 and the 33:33:00:00:00:02 mapping of the multicast destination *)
+Theorem C07_rs_wellformed : forall c junk,
   mac_ok (host_mac c) -> ip6_ok (host_lla c) -> length junk = EthMaxSize ->
-  exists fr, send_rs c junk = Ok [fr] /\
-    known_rs_noheader (a_ip ip6_all_nodes_addr) (host_mac c) (host_lla c) fr = true.
-Proof. exact rs_partial. Qed.
-Print Assumptions C07_rs_wellformed_partial.
+  exists fr, send_rs c junk = Ok [fr] /\ wf_rs (host_mac c) (host_lla c) fr = true.
+Proof. exact rs_wf. Qed.
+Print Assumptions C07_rs_wellformed.
+
+Theorem C07_rs_refuses_bad_mac : forall c junk,
+  Nat.eqb (length (host_mac c)) 6 = false -> send_rs c junk = Ok [].
+Proof. exact rs_refuses_bad_mac. Qed.
+Print Assumptions C07_rs_refuses_bad_mac.
 
 (* purge, IPv6 probes *)
 Theorem C07_purge_ns_wellformed : forall c tm ti id junk,
